@@ -102,7 +102,7 @@ var (
 // end-of-bubble deadlock panic when goroutines are left blocked).
 func Run(seed uint64, controlled bool, main func()) (panicked any) {
 	freeMode.Store(!controlled)
-	mu.Lock()
+	lockMu()
 	byGoid = map[uint64]*G{}
 	all = nil
 	current = nil
@@ -110,35 +110,56 @@ func Run(seed uint64, controlled bool, main func()) (panicked any) {
 	siteHits = map[string]int{}
 	lockWaits = 0
 	resetPools(seed)
-	mu.Unlock()
+	unlockMu()
 	defer func() {
-		mu.Lock()
+		lockMu()
 		active = false
-		mu.Unlock()
+		unlockMu()
 		rtConfigure(false, 0)
 		if r := recover(); r != nil {
 			panicked = r
 		}
 	}()
 	rtBubbleRun(func() {
-		mu.Lock()
+		lockMu()
 		root = &G{Seq: 0, ID: "0", Label: "sched", goid: rtGoid(), begun: true}
 		idle = make(chan struct{}, 1)
 		all = append(all, root)
 		byGoid[root.goid] = root
 		active = controlled
-		mu.Unlock()
+		unlockMu()
 		rtConfigure(true, seed)
 		main()
 	})
 	return nil
 }
 
+// lockMu / unlockMu guard the runtime's own state; invisible to the race
+// detector (see RaceOff).
+func lockMu() {
+	RaceOff()
+	mu.Lock()
+	RaceOn()
+}
+
+func unlockMu() {
+	RaceOff()
+	mu.Unlock()
+	RaceOn()
+}
+
+// waitWake blocks on a wake-up channel of the simulator.
+func waitWake(ch chan struct{}) {
+	RaceOff()
+	<-ch
+	RaceOn()
+}
+
 func cur() *G {
 	id := rtGoid()
-	mu.Lock()
+	lockMu()
 	g := byGoid[id]
-	mu.Unlock()
+	unlockMu()
 	return g
 }
 
@@ -148,8 +169,8 @@ func Spawn(site string) *Ticket {
 		return nil
 	}
 	id := rtGoid()
-	mu.Lock()
-	defer mu.Unlock()
+	lockMu()
+	defer unlockMu()
 	p := byGoid[id]
 	if p == nil {
 		// unmanaged parent (free mode after teardown, library goroutine)
@@ -168,18 +189,18 @@ func Begin(tk *Ticket) {
 		return
 	}
 	g := tk.g
-	mu.Lock()
+	lockMu()
 	g.goid = rtGoid()
 	byGoid[g.goid] = g
 	g.begun = true
 	g.Site = "begin"
 	if !active {
-		mu.Unlock()
+		unlockMu()
 		return
 	}
 	g.parked = true
-	mu.Unlock()
-	<-g.wake
+	unlockMu()
+	waitWake(g.wake)
 }
 
 // End is deferred by every spawned goroutine.
@@ -188,7 +209,7 @@ func End() {
 		return
 	}
 	id := rtGoid()
-	mu.Lock()
+	lockMu()
 	if g := byGoid[id]; g != nil {
 		g.done = true
 		g.parked = false
@@ -197,7 +218,7 @@ func End() {
 			current = nil
 		}
 	}
-	mu.Unlock()
+	unlockMu()
 }
 
 // Go starts a managed goroutine on behalf of the harness.
@@ -213,14 +234,18 @@ func Go(label string, f func()) {
 func park(g *G, site string) {
 	g.Site = site
 	g.parked = true
-	siteHits[site]++
+	if !RaceBuild {
+		siteHits[site]++
+	}
 	ch := idle
-	mu.Unlock()
+	unlockMu()
+	RaceOff()
 	select {
 	case ch <- struct{}{}:
 	default:
 	}
 	<-g.wake
+	RaceOn()
 }
 
 // Yield is a scheduling point placed before an operation.
@@ -229,15 +254,15 @@ func Yield(site string) {
 		return
 	}
 	id := rtGoid()
-	mu.Lock()
+	lockMu()
 	g := byGoid[id]
 	if g == nil || g == root {
-		mu.Unlock()
+		unlockMu()
 		return
 	}
 	if !active {
 		g.Site = site
-		mu.Unlock()
+		unlockMu()
 		return
 	}
 	park(g, site)
@@ -251,14 +276,14 @@ func Woke(site string) {
 		return
 	}
 	id := rtGoid()
-	mu.Lock()
+	lockMu()
 	g := byGoid[id]
 	if g == nil || g == root || !active {
-		mu.Unlock()
+		unlockMu()
 		return
 	}
 	if current == g {
-		mu.Unlock()
+		unlockMu()
 		return
 	}
 	park(g, site+"!")
@@ -286,9 +311,9 @@ func Send[T any](site string, check bool, ch chan T, v T) {
 
 // Report records a violation observed inside the code under test.
 func Report(kind, msg string) {
-	mu.Lock()
+	lockMu()
 	viols = append(viols, viol{kind, msg})
-	mu.Unlock()
+	unlockMu()
 }
 
 // ---- scheduler side (called only by the bubble's main goroutine) ----
@@ -296,15 +321,17 @@ func Report(kind, msg string) {
 // Wait blocks until every other goroutine in the bubble is durably blocked.
 func Wait() {
 	rtBubbleWait()
-	mu.Lock()
+	lockMu()
 	current = nil
-	mu.Unlock()
+	unlockMu()
 }
 
 // Sleep lets fake time pass: it blocks the scheduler until some managed
 // goroutine parks (woken by a timer) or max has elapsed, whichever is first.
 // With early=false it sleeps for exactly max.
 func Sleep(max time.Duration, early bool) {
+	RaceOff()
+	defer RaceOn()
 	if !early {
 		time.Sleep(max)
 		return
@@ -327,69 +354,71 @@ func SetStep(n uint64) { rtSetStep(n) }
 // ParkedGs returns the releasable goroutines ordered by Seq.
 func ParkedGs(buf []*G) []*G {
 	buf = buf[:0]
-	mu.Lock()
+	lockMu()
 	for _, g := range all {
 		if g.parked && !g.done && g.eligible() {
 			buf = append(buf, g)
 		}
 	}
-	mu.Unlock()
+	unlockMu()
 	return buf
 }
 
 // BlockedOnLocks returns parked goroutines that wait for a held lock.
 func BlockedOnLocks() []*G {
 	var out []*G
-	mu.Lock()
+	lockMu()
 	for _, g := range all {
 		if g.parked && !g.done && !g.eligible() {
 			out = append(out, g)
 		}
 	}
-	mu.Unlock()
+	unlockMu()
 	return out
 }
 
 // Release hands the token to g. The caller must call Wait afterwards.
 func Release(g *G) {
-	mu.Lock()
+	lockMu()
 	if !g.parked {
-		mu.Unlock()
+		unlockMu()
 		panic("simrt: release of a goroutine that is not parked: " + g.String())
 	}
 	g.parked = false
 	g.waitLock = nil
 	g.Steps++
 	current = g
-	mu.Unlock()
+	unlockMu()
+	RaceOff()
 	g.wake <- struct{}{}
+	RaceOn()
 }
 
 // Live returns all managed goroutines that have not exited (excluding the
 // scheduler), ordered by Seq.
 func Live() []*G {
 	var out []*G
-	mu.Lock()
+	lockMu()
 	for _, g := range all {
 		if g != root && !g.done {
 			out = append(out, g)
 		}
 	}
-	mu.Unlock()
+	unlockMu()
 	return out
 }
 
 // NumSpawned returns the number of goroutines ever registered.
 func NumSpawned() int {
-	mu.Lock()
-	defer mu.Unlock()
+	lockMu()
+	defer unlockMu()
 	return len(all)
 }
 
 // Free switches every scheduling point to a no-op and releases all parked
 // goroutines; used for teardown at the end of a run.
 func Free() {
-	mu.Lock()
+	lockMu()
 	active = false
 	var ps []*G
 	for _, g := range all {
@@ -399,16 +428,18 @@ func Free() {
 			ps = append(ps, g)
 		}
 	}
-	mu.Unlock()
+	unlockMu()
+	RaceOff()
 	for _, g := range ps {
 		g.wake <- struct{}{}
 	}
+	RaceOn()
 }
 
 // Violations returns violations reported from inside the code under test.
 func Violations() [][2]string {
-	mu.Lock()
-	defer mu.Unlock()
+	lockMu()
+	defer unlockMu()
 	out := make([][2]string, len(viols))
 	for i, v := range viols {
 		out[i] = [2]string{v.Kind, v.Msg}
@@ -418,8 +449,8 @@ func Violations() [][2]string {
 
 // SiteHits returns how often each scheduling point parked a goroutine.
 func SiteHits() map[string]int {
-	mu.Lock()
-	defer mu.Unlock()
+	lockMu()
+	defer unlockMu()
 	out := make(map[string]int, len(siteHits))
 	for k, v := range siteHits {
 		out[k] = v
